@@ -40,6 +40,16 @@ static char g_sweep_label[256] = "";
 static bool g_in_sweep = false;
 static char g_sweep_filter[256] = "";
 static bool g_have_filter = false;
+// History of this process (DESIGN.md 7.8): a failure that only shows after earlier cases of the same process have left state behind in the
+// library (a static or thread-local buffer, a cache) does not reproduce from its own tape.  The last cases are therefore kept and
+// written beside the failing tape as a multi-case replay file ("TAPES" / "SWEEPSET"), which the driver tries when the single case passes alone.
+static std::vector<std::vector<uint8_t>> g_hist;      // ring of the most recent tapes (oldest first after rotation)
+static size_t g_hist_head = 0, g_hist_bytes = 0;
+static const size_t HIST_MAX = 1024, HIST_BYTES = 16u << 20;
+static bool g_hist_saved = false;                      // written once, at the first failure (rapidcheck's shrinking would flush the ring)
+static char g_label_ring[128][256];
+static size_t g_label_n = 0;
+static std::vector<std::string> g_filter_set;          // replay of a SWEEPSET file
 
 std::string jstr(const std::string& s) {
 	std::string o = "\"";
@@ -125,8 +135,30 @@ static void dump_stats() {
 	if (f) { for (uint64_t h : g_stats.nontrivial) fwrite(&h, 8, 1, f); fclose(f); }
 }
 
+static void save_history() {
+	if (g_hist_saved) return;
+	g_hist_saved = true;
+	std::string p = g_outdir + "/fail.hist";
+	int fd = open(p.c_str(), O_WRONLY | O_CREAT | O_TRUNC, 0600);
+	if (fd < 0) return;
+	if (g_in_sweep) {
+		(void)!write(fd, "SWEEPSET\n", 9);
+		size_t n = g_label_n < 128 ? g_label_n : 128;
+		for (size_t k = 0; k < n; ++k) { const char* l = g_label_ring[(g_label_n - n + k) % 128]; (void)!write(fd, l, strlen(l)); (void)!write(fd, "\n", 1); }
+	} else {
+		(void)!write(fd, "TAPES\n", 6);
+		size_t n = g_hist.size();
+		for (size_t k = 0; k < n; ++k) {
+			const std::vector<uint8_t>& v = g_hist[(g_hist_head + k) % n];
+			uint32_t len = uint32_t(v.size()); (void)!write(fd, &len, 4); if (len) (void)!write(fd, v.data(), len);
+		}
+	}
+	close(fd);
+}
+
 static void save_failure(const char* kind, const std::string& msg) {
 	// replay file: either the raw tape or a "SWEEP <label>" line
+	save_history();
 	std::string p = g_outdir + "/fail.tape";
 	if (g_in_sweep) {
 		std::string s = std::string("SWEEP ") + g_sweep_label + "\n";
@@ -141,12 +173,14 @@ static void save_failure(const char* kind, const std::string& msg) {
 static void death_cb() {
 	// sanitizer report in progress: persist the case and the counters (no atexit will run)
 	if (!g_violation_saved) save_failure("sanitizer", g_in_sweep ? g_sweep_label : "see stderr");
+	else save_history();
 	dump_stats();
 	if (!g_scratch.empty()) rm_rf(g_scratch);
 }
 
 static void on_alarm(int) {
 	// async-signal context: keep it simple
+	save_history();
 	int fd = open((g_outdir + "/fail.tape").c_str(), O_WRONLY | O_CREAT | O_TRUNC, 0600);
 	if (fd >= 0) {
 		if (g_in_sweep) { (void)!write(fd, "SWEEP ", 6); (void)!write(fd, g_sweep_label, strlen(g_sweep_label)); (void)!write(fd, "\n", 1); }
@@ -169,7 +203,11 @@ namespace verif {
 bool sw(const char* group, uint64_t a, uint64_t b, uint64_t c, uint64_t d) {
 	snprintf(g_sweep_label, sizeof g_sweep_label, "%s %llu %llu %llu %llu", group,
 		(unsigned long long)a, (unsigned long long)b, (unsigned long long)c, (unsigned long long)d);
-	if (g_have_filter && strcmp(g_sweep_filter, g_sweep_label) != 0) return false;
+	if (g_have_filter) {
+		if (g_filter_set.empty()) { if (strcmp(g_sweep_filter, g_sweep_label) != 0) return false; }
+		else { bool in = false; for (auto& f : g_filter_set) if (f == g_sweep_label) in = true; if (!in) return false; }
+	}
+	memcpy(g_label_ring[g_label_n++ % 128], g_sweep_label, sizeof g_sweep_label);
 	++g_stats.evaluations;
 	arm();
 	return true;
@@ -182,6 +220,16 @@ static int run_one(const uint8_t* d, size_t n, std::string* msg) {
 	g_cur_len = n < sizeof g_cur_data ? n : sizeof g_cur_data;
 	if (g_cur_len) memcpy(g_cur_data, d, g_cur_len);
 	++g_stats.evaluations;
+	if (!g_hist_saved) {
+		std::vector<uint8_t> cp(d, d + g_cur_len);
+		g_hist_bytes += cp.size();
+		if (g_hist.size() < HIST_MAX) g_hist.push_back(std::move(cp));
+		else { g_hist_bytes -= g_hist[g_hist_head].size(); g_hist[g_hist_head] = std::move(cp); g_hist_head = (g_hist_head + 1) % HIST_MAX; }
+		while (g_hist_bytes > HIST_BYTES && g_hist.size() == HIST_MAX) {   // byte cap: blank the oldest entries (kept as empty tapes)
+			size_t k = 0; for (; k < HIST_MAX; ++k) { auto& v = g_hist[(g_hist_head + k) % HIST_MAX]; if (!v.empty()) { g_hist_bytes -= v.size(); v.clear(); v.shrink_to_fit(); break; } }
+			if (k == HIST_MAX) break;
+		}
+	}
 	Tape t(d, n);
 	arm();
 	try { run_case(t, g_stats); }
@@ -245,6 +293,32 @@ static int mode_replay(int argc, char** argv) {
 	for (int i = 0; i < argc; ++i) {
 		std::vector<uint8_t> v;
 		if (!read_file(argv[i], v)) { fprintf(stderr, "cannot read %s\n", argv[i]); return 2; }
+		if (v.size() >= 6 && memcmp(v.data(), "TAPES\n", 6) == 0) {
+			// several cases run one after the other in this process (state left behind by earlier cases is part of the reproduction)
+			size_t at = 6, k = 0; g_hist_saved = true;
+			while (at + 4 <= v.size()) {
+				uint32_t len; memcpy(&len, v.data() + at, 4); at += 4; if (at + len > v.size()) break;
+				std::string msg;
+				if (run_one(v.data() + at, len, &msg)) { printf("REPLAY %s: VIOLATION (case %zu of the sequence) %s\n", argv[i], k, msg.c_str()); save_failure("violation", msg); rc = 1; break; }
+				at += len; ++k;
+			}
+			if (!rc) printf("REPLAY %s: ok (%zu cases in sequence)\n", argv[i], k);
+			continue;
+		}
+		if (v.size() >= 9 && memcmp(v.data(), "SWEEPSET\n", 9) == 0) {
+			std::string all(v.begin() + 9, v.end()); size_t a = 0;
+			g_filter_set.clear();
+			while (a < all.size()) { size_t e = all.find('\n', a); if (e == std::string::npos) e = all.size(); if (e > a) g_filter_set.push_back(all.substr(a, e - a)); a = e + 1; }
+			g_have_filter = true; g_in_sweep = true; g_hist_saved = true;
+			arm();
+			try { run_sweep(g_stats); }
+			catch (const Violation& e) { printf("REPLAY %s: VIOLATION %s\n", argv[i], e.msg.c_str()); rc = 1; }
+			catch (const std::exception& e) { printf("REPLAY %s: VIOLATION unexpected exception %s\n", argv[i], e.what()); rc = 1; }
+			disarm();
+			g_in_sweep = false; g_have_filter = false; g_filter_set.clear();
+			if (!rc) printf("REPLAY %s: ok (%llu cases matched)\n", argv[i], (unsigned long long)g_stats.evaluations);
+			continue;
+		}
 		if (v.size() > 6 && memcmp(v.data(), "SWEEP ", 6) == 0) {
 			std::string s(v.begin() + 6, v.end());
 			while (!s.empty() && (s.back() == '\n' || s.back() == '\r')) s.pop_back();
